@@ -75,7 +75,7 @@ package autodiff
 //@   ensures @same (old(a.N) == n && old(a.Order) == order) ==> a.Derivative == old(a.Derivative) && a.Hessian == old(a.Hessian)
 //@   ensures @new !(old(a.N) == n && old(a.Order) == order) ==>
 //@      (order >= 1 ==> fresh(a.Derivative) && (forall i int :: 0 <= i && i < n ==> a.Derivative[i] == 0)) &&
-//@      (order >= 2 ==> fresh(a.Hessian) && (forall i int, j int :: 0 <= i && i < n && 0 <= j && j < n ==> fresh(a.Hessian[i]) && a.Hessian[i][j] == 0))
+//@      (order >= 2 ==> fresh(a.Hessian) && (forall i int :: 0 <= i && i < n ==> fresh(a.Hessian[i])) && (forall i int, j int :: 0 <= i && i < n && 0 <= j && j < n ==> a.Hessian[i][j] == 0))
 //@   modifies $R.N@{a}, $R.Order@{a}, $R.Derivative@{a}, $R.Hessian@{a}
 //@   loop 1 invariant 0 <= i && i <= n && a.N == n && a.Order == order && order >= 2 && a.Value == old(a.Value)
 //@   loop 1 invariant fresh(a.Derivative) && len(a.Derivative) == n && fresh(a.Hessian) && len(a.Hessian) == n && off(a.Hessian) == 0 && off(a.Derivative) == 0
@@ -239,18 +239,21 @@ package autodiff
 //@ func (*$R).Set [also: (*$R).SET]
 //@   requires RI_$R(a) && RIc(b) && sep_$R(a, b)
 //@   ensures RI_$R(a) && jetEq_$R(a, b)
+//@   ensures @own forall q int :: owns_$R(a, q) ==> old(owns_$R(a, q)) || q >= old(alloc)
 //@   modifies $R.Value@{a}, $R.N@{a}, $R.Order@{a}, $R.Derivative@{a}, $R.Hessian@{a}, []$F@{q :: owns_$R(a, q)}
 //@   loop 1 invariant 0 <= i && i <= a.N && RI_$R(a) && a.Value == old(val(b)) && a.Order == old(order(b)) && a.N == old(nvars(b)) && a.Order >= 1 && nvars(b) == old(nvars(b)) && order(b) == old(order(b))
 //@   loop 1 invariant forall k int :: 0 <= k && k < i ==> a.Derivative[k] == old(D(b, k))
 //@   loop 1 invariant forall k int :: 0 <= k && k < a.N ==> D(b, k) == old(D(b, k))
 //@   loop 1 invariant forall p int, q int :: 0 <= p && p < a.N && 0 <= q && q < a.N ==> H(b, p, q) == old(H(b, p, q))
 //@   loop 1 invariant forall r int, k int :: r < old(alloc) && !old(owns_$R(a, r)) ==> row($F, r)[k] == old(row($F, r)[k])
+//@   loop 1 invariant forall q int :: owns_$R(a, q) ==> old(owns_$R(a, q)) || q >= old(alloc)
 //@   loop 1 decreases a.N - i
 //@   loop 2 invariant 0 <= i && i <= a.N && RI_$R(a) && a.Value == old(val(b)) && a.Order == old(order(b)) && a.N == old(nvars(b)) && a.Order >= 2 && nvars(b) == old(nvars(b)) && order(b) == old(order(b))
 //@   loop 2 invariant forall k int :: 0 <= k && k < a.N ==> a.Derivative[k] == old(D(b, k))
 //@   loop 2 invariant forall p int, q int :: 0 <= p && p < i && 0 <= q && q < a.N ==> a.Hessian[p][q] == old(H(b, p, q))
 //@   loop 2 invariant forall p int, q int :: 0 <= p && p < a.N && 0 <= q && q < a.N ==> H(b, p, q) == old(H(b, p, q))
 //@   loop 2 invariant forall r int, k int :: r < old(alloc) && !old(owns_$R(a, r)) ==> row($F, r)[k] == old(row($F, r)[k])
+//@   loop 2 invariant forall q int :: owns_$R(a, q) ==> old(owns_$R(a, q)) || q >= old(alloc)
 //@   loop 2 decreases a.N - i
 //@   loop 3 invariant 0 <= i && i < a.N && 0 <= j && j <= a.N && RI_$R(a) && a.Value == old(val(b)) && a.Order == old(order(b)) && a.N == old(nvars(b)) && a.Order >= 2 && nvars(b) == old(nvars(b)) && order(b) == old(order(b))
 //@   loop 3 invariant forall k int :: 0 <= k && k < a.N ==> a.Derivative[k] == old(D(b, k))
@@ -258,11 +261,13 @@ package autodiff
 //@   loop 3 invariant forall q int :: 0 <= q && q < j ==> a.Hessian[i][q] == old(H(b, i, q))
 //@   loop 3 invariant forall p int, q int :: 0 <= p && p < a.N && 0 <= q && q < a.N ==> H(b, p, q) == old(H(b, p, q))
 //@   loop 3 invariant forall r int, k int :: r < old(alloc) && !old(owns_$R(a, r)) ==> row($F, r)[k] == old(row($F, r)[k])
+//@   loop 3 invariant forall q int :: owns_$R(a, q) ==> old(owns_$R(a, q)) || q >= old(alloc)
 //@   loop 3 decreases a.N - j
 
 //@ func (*$R).Clone [also: (*$R).CloneScalar, (*$R).CloneConstScalar, (*$R).CloneMagicScalar]
 //@   requires RI_$R(a)
 //@   ensures isa(*$R, result) && fresh(as(*$R, result)) && RI_$R(as(*$R, result)) && jetEq_$R(as(*$R, result), a)
+//@   ensures @deep forall q int :: owns_$R(as(*$R, result), q) ==> q >= old(alloc)
 //@   modifies nothing
 
 //@ func (*$R).SetVariable
@@ -607,6 +612,26 @@ package autodiff
 //@   requires RIc(a)
 //@   ensures result == val(a)
 //@   pure
+//@ func $S.GetInt
+//@   requires RIc(a)
+//@   ensures result == trunc(val(a))
+//@   pure
+//@ func $S.GetInt8
+//@   requires RIc(a)
+//@   ensures result == trunc(val(a))
+//@   pure
+//@ func $S.GetInt16
+//@   requires RIc(a)
+//@   ensures result == trunc(val(a))
+//@   pure
+//@ func $S.GetInt32
+//@   requires RIc(a)
+//@   ensures result == trunc(val(a))
+//@   pure
+//@ func $S.GetInt64
+//@   requires RIc(a)
+//@   ensures result == trunc(val(a))
+//@   pure
 //@ func $S.GetOrder
 //@   requires RIc(a)
 //@   ensures result == order(a)
@@ -622,6 +647,12 @@ package autodiff
 //@ func $S.GetHessian
 //@   requires RIc(a) && (order(a) >= 2 ==> 0 <= i && i < nvars(a) && 0 <= j && j < nvars(a))
 //@   ensures result == H(a, i, j)
+//@   pure
+//@ end
+//@ for $S in (*Real64), (*Real32)
+//@ func $S.GetLogValue
+//@   requires RIc(a)
+//@   ensures result == log(val(a))
 //@   pure
 //@ end
 
